@@ -2,8 +2,11 @@
 import ast
 
 from ..algebra import Alg, Uninterpreted, atom, const, opaque_name
+from ..algebra import RF
 from ..dispatch import Facts, walk
+from ..flow import Taint, bindings, const_value, names
 from ..model import AnalysisError, attr_chain, call_name, stmts_in
+from ..segeval import Repeat, Seg, SegEval, boolean, same, show
 
 EXPLANATION = (
     "Static rules over the segments() decompositions and their plumbing (no execution). R06.1 decomposition tables: the "
@@ -43,31 +46,77 @@ def run(ctx):
     plumbing(ctx)
 
 
-def pt(alg, node):
-    if isinstance(node, ast.Constant) and node.value is None:
-        return None
-    v = alg.point_value(node)
-    if v is None:
-        raise AnalysisError("R06.1", "point expression not interpreted: %s" % ast.unparse(node))
-    return v
+SEG_KINDS = ("Move", "Line", "Arc", "Close", "QuadraticBezier", "CubicBezier")
 
 
 def peq(a, b):
     return a is not None and b is not None and a[0] == b[0] and a[1] == b[1]
 
 
+def has_call(node, attr):
+    return any(isinstance(c, ast.Call) and isinstance(c.func, ast.Attribute) and c.func.attr == attr for c in ast.walk(node))
+
+
+def common_leaf(node, degenerate=False):
+    """Valuation of the tests every decomposition shares: untransformed, strict, not degenerate."""
+    if isinstance(node, ast.Call) and isinstance(node.func, ast.Attribute) and node.func.attr == "is_degenerate":
+        return degenerate
+    if isinstance(node, ast.Call) and isinstance(node.func, ast.Attribute) and node.func.attr == "is_identity":
+        return True
+    if isinstance(node, ast.Name) and node.id == "transformed":
+        return False
+    if isinstance(node, ast.Attribute) and node.attr == "_strict":
+        return True
+    return None
+
+
+def rect_leaf(holder, zero, degenerate=False):
+    RX, RY = atom("self.rx"), atom("self.ry")
+
+    def leaf(node):
+        v = common_leaf(node, degenerate)
+        if v is not None:
+            return v
+        if isinstance(node, ast.Compare):
+            consts = [c for c in [node.left] + node.comparators if isinstance(c, ast.Constant) and c.value == 0]
+            if consts and all(isinstance(o, (ast.Lt, ast.Gt, ast.LtE, ast.GtE)) for o in node.ops):
+                return False  # negative-radius tests: validated radii are non-negative
+            if consts and all(isinstance(o, ast.Eq) for o in node.ops):
+                return zero
+            if consts and all(isinstance(o, ast.NotEq) for o in node.ops):
+                return not zero
+        if isinstance(node, ast.Name) and "ev" in holder:
+            e = holder["ev"].alg.env.get(node.id)
+            if isinstance(e, RF) and (e == RX or e == RY):
+                return not zero
+        return None
+
+    return leaf
+
+
+def extract(ctx, qual, rule, leaf, **kw):
+    fn = ctx.fn(qual, rule)
+    ev = SegEval(ctx, rule, qual, SEG_KINDS, lambda t: boolean(t, leaf), **kw)
+    out = ev.run(fn.body)
+    return fn, ev, out
+
+
+def result_sequence(ev, out, rule, qual):
+    if out[0] != "return" or out[1] is None:
+        raise AnalysisError(rule, "%s: does not return a sequence on this path" % qual)
+    node = out[1]
+    sv = ev.seq_value(node)
+    if sv is not None:
+        return sv
+    if isinstance(node, ast.Call) and isinstance(node.func, ast.Attribute) and node.func.attr == "segments" and isinstance(node.func.value, ast.Name):
+        v = ev.vals.get(node.func.value.id)
+        if isinstance(v, tuple) and v and v[0] == "builder":
+            return v[1]
+    raise AnalysisError(rule, "%s: returned expression not interpreted: %s" % (qual, ast.unparse(node)[:80]))
+
+
 def rect_tables(ctx):
-    fn = ctx.fn("Rect.segments", "R06.1")
-    alg = Alg()
-    for s in fn.body:
-        if isinstance(s, ast.Assign) and isinstance(s.targets[0], ast.Name) and ast.unparse(s.value).startswith("self."):
-            alg.env[s.targets[0].id] = atom(ast.unparse(s.value).split(".")[1].upper())
-    X, Y, W, H, RX, RY = (atom(n) for n in ("X", "Y", "WIDTH", "HEIGHT", "RX", "RY"))
-    tuples = [s for s in stmts_in(fn.body) if isinstance(s, ast.Assign) and ast.unparse(s.targets[0]) == "segments" and isinstance(s.value, ast.Tuple)]
-    ctx.need(len(tuples) == 2, "R06.1", "Rect.segments: two decomposition tuples expected")
-    plain = [t for t in tuples if len(t.value.elts) == 5]
-    rounded = [t for t in tuples if len(t.value.elts) == 10]
-    ctx.need(len(plain) == 1 and len(rounded) == 1, "R06.1", "Rect.segments: tuples of 5 and 10 segments expected")
+    X, Y, W, H, RX, RY = (atom(n) for n in ("self.x", "self.y", "self.width", "self.height", "self.rx", "self.ry"))
     spec_plain = [("Move", None, [X, Y]), ("Line", [X, Y], [X + W, Y]), ("Line", [X + W, Y], [X + W, Y + H]), ("Line", [X + W, Y + H], [X, Y + H]), ("Close", [X, Y + H], [X, Y])]
     spec_round = [
         ("Move", None, [X + RX, Y]), ("Line", [X + RX, Y], [X + W - RX, Y]), ("Arc", [X + W - RX, Y], [X + W, Y + RY]),
@@ -75,77 +124,119 @@ def rect_tables(ctx):
         ("Line", [X + W - RX, Y + H], [X + RX, Y + H]), ("Arc", [X + RX, Y + H], [X, Y + H - RY]),
         ("Line", [X, Y + H - RY], [X, Y + RY]), ("Arc", [X, Y + RY], [X + RX, Y]), ("Close", [X + RX, Y], [X + RX, Y]),
     ]
-    for name, tup, spec in (("plain", plain[0], spec_plain), ("rounded", rounded[0], spec_round)):
+    for name, zero, spec in (("plain", True, spec_plain), ("rounded", False, spec_round)):
+        holder = {}
+        leaf = rect_leaf(holder, zero)
+        fn = ctx.fn("Rect.segments", "R06.1")
+        ev = SegEval(ctx, "R06.1", "Rect.segments[%s]" % name, SEG_KINDS, lambda t, leaf=leaf: boolean(t, leaf))
+        holder["ev"] = ev
+        out = ev.run(fn.body)
+        seq = result_sequence(ev, out, "R06.1", "Rect.segments[%s]" % name)
+        ctx.ob("R06.1", "Rect.segments[%s: %d segments]" % (name, len(spec)), len(seq) == len(spec) and all(isinstance(x, Seg) for x in seq), "%d segments" % len(seq), fn.lineno,
+               "the SVG 2 equivalent path of a %s rect has %d segments" % (name, len(spec)))
         prev_end = None
-        for i, (call, (kind, s0, e0)) in enumerate(zip(tup.value.elts, spec)):
+        for i, (sg, (kind, s0, e0)) in enumerate(zip(seq, spec)):
+            if not isinstance(sg, Seg):
+                continue
             cons = "Rect.segments[%s #%d %s]" % (name, i, kind)
-            okk = call_name(call) == kind
-            a0 = pt(alg, call.args[0]) if call.args else None
-            a1 = pt(alg, call.args[1]) if len(call.args) > 1 else None
-            ok = okk and (s0 is None and a0 is None or peq(a0, s0)) and peq(a1, e0)
-            ctx.ob("R06.1", cons, ok, ast.unparse(call)[:90], call.lineno, "segment kind or coordinates differ from the SVG 2 equivalent path of a rect")
+            a0 = sg.args[0] if sg.args else None
+            a1 = sg.args[1] if len(sg.args) > 1 else None
+            ok = sg.kind == kind and (s0 is None and a0 is None or peq(a0, s0)) and peq(a1, e0)
+            ctx.ob("R06.1", cons, ok, repr(sg)[:120], sg.node.lineno, "segment kind or coordinates differ from the SVG 2 equivalent path of a rect")
             if prev_end is not None and a0 is not None:
-                ctx.ob("R06.1", cons + ":connected", peq(a0, prev_end), "", call.lineno, "each segment starts where the previous one ended", sample=False)
+                ctx.ob("R06.1", cons + ":connected", peq(a0, prev_end), "", sg.node.lineno, "each segment starts where the previous one ended", sample=False)
             prev_end = a1
             if kind == "Arc":
-                kw = {k.arg: ast.unparse(k.value) for k in call.keywords}
-                ctx.ob("R06.1", cons + ":radii", kw.get("rx") == "rx" and kw.get("ry") == "ry", str(kw), call.lineno, "corner arcs use the rect's rx and ry", sample=False)
-    # which table is used when
-    guards = [s for s in fn.body if isinstance(s, ast.If) and any(t in [x for x in s.body] for t in plain)]
-    ok = len(guards) == 1 and ast.unparse(guards[0].test).replace(" ", "") in ("rx==ry==0", "rx==0andry==0", "rx==0orry==0")
-    ctx.ob("R06.1", "Rect.segments[table choice]", ok, ast.unparse(guards[0].test) if guards else "", fn.lineno, "square corners exactly when the (validated) radii are zero")
+                ok = isinstance(sg.kw.get("rx"), RF) and sg.kw["rx"] == RX and isinstance(sg.kw.get("ry"), RF) and sg.kw["ry"] == RY
+                ctx.ob("R06.1", cons + ":radii", ok, repr(sg.kw)[:100], sg.node.lineno, "corner arcs use the rect's rx and ry", sample=False)
+    # which table is used when: the plain table must be the one selected when both (validated) radii are zero - decided above by construction:
+    # the scenario `radii zero` produced the 5-segment table and `radii non-zero` the 10-segment one.
 
 
 def line_and_poly(ctx):
-    fn = ctx.fn("SimpleLine.segments", "R06.1")
-    src = [ast.unparse(s).replace(" ", "") for s in fn.body if not (isinstance(s, ast.Expr) and isinstance(s.value, ast.Constant))]
-    ok = "start=Point(self.x1,self.y1)" in src and "end=Point(self.x2,self.y2)" in src and src[-1] in ("returnMove(None,start),Line(start,end)", "return(Move(None,start),Line(start,end))")
-    ctx.ob("R06.1", "SimpleLine.segments", ok, "; ".join(src)[:160], fn.lineno, "a line is M x1,y1 L x2,y2")
-    fn = ctx.fn("_Polyshape.segments", "R06.1")
-    src = ast.unparse(fn).replace(" ", "")
-    ok = "segments=[Move(None,points[0])]" in src and "foriinrange(1,len(points)):" in src and "segments.append(Line(last,current))" in src and "last=current" in src and "last=points[0]" in src
-    ctx.ob("R06.1", "_Polyshape.segments[move then linetos]", ok, "", fn.lineno, "a polyline/polygon is M p0 then L to every subsequent point, each line starting at the previous point")
-    closes = [s for s in ast.walk(fn) if isinstance(s, ast.If) and "Close(" in ast.unparse(s)]
-    ok = len(closes) == 1 and ast.unparse(closes[0].test) == "isinstance(self, Polygon)" and ast.unparse(closes[0].body[0]).replace(" ", "") == "segments.append(Close(last,points[0]))"
-    ctx.ob("R06.1", "_Polyshape.segments[close iff polygon]", ok, ast.unparse(closes[0])[:90] if closes else "", fn.lineno, "only a polygon is closed, back to its first point")
+    fn, ev, out = extract(ctx, "SimpleLine.segments", "R06.1", common_leaf)
+    seq = result_sequence(ev, out, "R06.1", "SimpleLine.segments")
+    p1 = [atom("self.x1"), atom("self.y1")]
+    p2 = [atom("self.x2"), atom("self.y2")]
+    ok = len(seq) == 2 and all(isinstance(x, Seg) for x in seq) and seq[0].kind == "Move" and seq[0].args[0] is None and same(seq[0].args[1], p1) \
+        and seq[1].kind == "Line" and same(seq[1].args[0], p1) and same(seq[1].args[1], p2)
+    ctx.ob("R06.1", "SimpleLine.segments", ok, repr(seq)[:160], fn.lineno, "a line is M x1,y1 L x2,y2")
+    for polygon in (False, True):
+        def leaf(node, polygon=polygon):
+            v = common_leaf(node)
+            if v is not None:
+                return v
+            if isinstance(node, ast.Call) and call_name(node) == "isinstance" and len(node.args) == 2 and isinstance(node.args[0], ast.Name) and node.args[0].id == "self" \
+                    and isinstance(node.args[1], ast.Name) and node.args[1].id in ctx.m.classes:
+                return node.args[1].id in ctx.m.mro("Polygon" if polygon else "Polyline")
+            return None
+
+        tag = "polygon" if polygon else "polyline"
+        fn, ev, out = extract(ctx, "_Polyshape.segments", "R06.1", leaf, point_lists=("self.points",))
+        seq = result_sequence(ev, out, "R06.1", "_Polyshape.segments[%s]" % tag)
+        P = lambda i: ("elem", "self.points", i)
+        reps = [x for x in seq if isinstance(x, Repeat)]
+        ok = len(seq) >= 2 and isinstance(seq[0], Seg) and seq[0].kind == "Move" and seq[0].args[0] is None and same(seq[0].args[1], P(const(0))) and len(reps) == 1 and seq[1] is reps[0]
+        hi = None
+        if ok:
+            r = reps[0]
+            i = atom(r.var)
+            hi = r.hi
+            ok = r.lo == const(1) and str(r.hi).startswith("len(") and len(r.items) == 1 and r.items[0].kind == "Line" \
+                and same(r.items[0].args[0], P(i - const(1))) and same(r.items[0].args[1], P(i))
+        if not polygon:
+            ctx.ob("R06.1", "_Polyshape.segments[move then linetos]", ok, repr(seq)[:200], fn.lineno,
+                   "a polyline/polygon is M p0 then L to every subsequent point, each line starting at the previous point")
+            ctx.ob("R06.1", "_Polyshape.segments[polyline stays open]", len(seq) == 2, "%d parts" % len(seq), fn.lineno, "a polyline is not closed")
+        else:
+            okc = ok and len(seq) == 3 and isinstance(seq[2], Seg) and seq[2].kind == "Close" and same(seq[2].args[0], P(hi - const(1))) and same(seq[2].args[1], P(const(0)))
+            ctx.ob("R06.1", "_Polyshape.segments[close iff polygon]", okc, repr(seq[2:])[:120], fn.lineno, "only a polygon is closed, from its last point back to its first point")
     ctx.ob("R06.1", "Polyline is not a Polygon", "Polygon" not in ctx.m.mro("Polyline") and "Polyline" not in ctx.m.mro("Polygon"), "", 0, "")
 
 
 def round_shape(ctx):
-    fn = ctx.fn("_RoundShape.segments", "R06.1")
-    src = ast.unparse(fn).replace(" ", "")
-    ok = "steps=4" in src and "step_size=tau/steps" in src and "t_start=0" in src and "t_end=step_size" in src
-    ctx.ob("R06.1", "_RoundShape.segments[four quarter turns from t=0]", ok, "", fn.lineno, "circle/ellipse: start at cx+rx,cy and take four quarter arcs in the positive direction")
-    ok = "path.move(self.point_at_t(0))" in src
-    ctx.ob("R06.1", "_RoundShape.segments[start point]", ok, "", fn.lineno, "the path starts at the point of parameter 0 (cx+rx, cy)")
-    loop = [s for s in fn.body if isinstance(s, ast.For)]
-    ctx.need(len(loop) == 1, "R06.1", "_RoundShape.segments: loop not found")
-    arcs = [c for c in ast.walk(loop[0]) if call_name(c) == "Arc"]
-    ok = len(arcs) == 1 and [ast.unparse(a).replace(" ", "") for a in arcs[0].args] == ["self.point_at_t(t_start)", "self.point_at_t(t_end)", "center"] \
-        and {k.arg: ast.unparse(k.value) for k in arcs[0].keywords} == {"rx": "rx", "ry": "ry", "rotation": "self.rotation", "sweep": "step_size"}
-    ctx.ob("R06.1", "_RoundShape.segments[arc operands]", ok, ast.unparse(arcs[0])[:120] if arcs else "", loop[0].lineno, "each arc runs between consecutive quarter points about the centre with the shape's radii")
-    aft = [ast.unparse(s).replace(" ", "") for s in loop[0].body if isinstance(s, (ast.Assign, ast.AugAssign))
-           and ast.unparse(s.targets[0] if isinstance(s, ast.Assign) else s.target) in ("t_start", "t_end")]
-    ctx.ob("R06.1", "_RoundShape.segments[parameter carried]", aft == ["t_start=t_end", "t_end+=step_size"], "; ".join(aft), loop[0].lineno, "the next arc starts at the parameter where this one ended")
-    ctx.ob("R06.1", "_RoundShape.segments[closed]", "path.closed()" in src and ast.unparse(loop[0].iter).replace(" ", "") == "range(steps)", "", fn.lineno, "four arcs, then a close")
+    fn, ev, out = extract(ctx, "_RoundShape.segments", "R06.1", common_leaf, point_calls=("point_at_t",))
+    seq = result_sequence(ev, out, "R06.1", "_RoundShape.segments")
+    q = const(2) * atom("pi") / const(4)
+    PT = lambda t: ("call", "point_at_t", t)
+    ok = bool(seq) and isinstance(seq[0], Seg) and seq[0].kind == "Move" and same(seq[0].args[1], PT(const(0)))
+    ctx.ob("R06.1", "_RoundShape.segments[start point]", ok, repr(seq[:1])[:100], fn.lineno, "the path starts at the point of parameter 0 (cx+rx, cy)")
+    arcs = [x for x in seq if isinstance(x, Seg) and x.kind == "Arc"]
+    ok = len(arcs) == 4 and len(seq) == 6 and [getattr(x, "kind", None) for x in seq] == ["Move", "Arc", "Arc", "Arc", "Arc", "Close"]
+    ctx.ob("R06.1", "_RoundShape.segments[four quarter turns from t=0]", ok, str([getattr(x, "kind", "?") for x in seq]), fn.lineno,
+           "circle/ellipse: start at cx+rx,cy, take four quarter arcs in the positive direction, close")
+    carried = all(same(a.args[0], PT(q * const(k))) and same(a.args[1], PT(q * const(k + 1))) for k, a in enumerate(arcs)) and len(arcs) == 4
+    ctx.ob("R06.1", "_RoundShape.segments[parameter carried]", carried, "; ".join("%s->%s" % (show(a.args[0]), show(a.args[1])) for a in arcs)[:200], fn.lineno,
+           "arc k runs from parameter k quarter turns to k+1 quarter turns")
+    okk = True
+    for a in arcs:
+        okk = okk and len(a.args) >= 3 and isinstance(a.args[2], RF) and a.args[2] == atom("self.implicit_center") \
+            and all(isinstance(a.kw.get(k), RF) for k in ("rx", "ry", "rotation", "sweep")) \
+            and a.kw["rx"] == atom("self.implicit_rx") and a.kw["ry"] == atom("self.implicit_ry") and a.kw["rotation"] == atom("self.rotation") and a.kw["sweep"] == q
+    ctx.ob("R06.1", "_RoundShape.segments[arc operands]", okk and bool(arcs), repr(arcs[:1])[:160], fn.lineno, "each arc runs about the centre with the shape's radii and rotation, a quarter turn each")
+    ctx.ob("R06.1", "_RoundShape.segments[closed]", bool(seq) and isinstance(seq[-1], Seg) and seq[-1].kind == "Close", "", fn.lineno, "four arcs, then a close")
     pat = ctx.fn("_RoundShape.point_at_t", "R06.1")
     a = Alg()
-    seed = {"self.rotation": "TH", "self.implicit_rx": "A", "self.implicit_ry": "B", "center.x": "CX", "center.y": "CY"}
-    for s in pat.body:
-        if isinstance(s, ast.Assign) and isinstance(s.targets[0], ast.Name):
-            sv = ast.unparse(s.value)
-            if sv in seed:
-                a.env[s.targets[0].id] = atom(seed[sv])
-            else:
-                try:
-                    a.assign(s)
-                except Uninterpreted:
-                    pass
-    ret = [s for s in pat.body if isinstance(s, ast.Return)][0]
-    pv = a.point_value(ret.value)
+    seed = {"self.rotation": "TH", "self.implicit_rx": "A", "self.implicit_ry": "B", "self.implicit_center.x": "CX", "self.implicit_center.y": "CY"}
+    for k, v in seed.items():
+        a.atom_map[k] = v
+    for st in stmts_in(pat.body):
+        if isinstance(st, ast.Assign) and isinstance(st.targets[0], ast.Name):
+            ch = attr_chain(st.value)
+            if ch == ["self", "implicit_center"]:
+                a.env[st.targets[0].id] = "self.implicit_center"
+                continue
+            try:
+                a.assign(st)
+            except Uninterpreted:
+                pass
+    rets = [st for st in ast.walk(pat) if isinstance(st, ast.Return)]
+    ctx.need(len(rets) == 1, "R06.1", "_RoundShape.point_at_t: single return expected")
+    tpar = pat.args.args[1].arg
+    pv = a.point_value(rets[0].value)
     cth, sth = atom(opaque_name("cos", [atom("TH")])), atom(opaque_name("sin", [atom("TH")]))
-    ct, st = atom(opaque_name("cos", [atom("t")])), atom(opaque_name("sin", [atom("t")]))
-    want = [atom("CX") + atom("A") * ct * cth - atom("B") * st * sth, atom("CY") + atom("A") * ct * sth + atom("B") * st * cth]
+    ct, st_ = atom(opaque_name("cos", [atom(tpar)])), atom(opaque_name("sin", [atom(tpar)]))
+    want = [atom("CX") + atom("A") * ct * cth - atom("B") * st_ * sth, atom("CY") + atom("A") * ct * sth + atom("B") * st_ * cth]
     ctx.ob("R06.1", "_RoundShape.point_at_t[ellipse form]", pv is not None and peq(pv, want), "", pat.lineno, "points of the ellipse: c + rx cos t (cos th, sin th) + ry sin t (-sin th, cos th)")
 
 
@@ -194,24 +285,69 @@ def corner_table(ctx):
                        "auto radii copy the given one; rx refers to the width and ry to the height; each is clamped to half its side")
 
 
+def zero_tests(ctx, fn, expr):
+    """attr chains tested for zero / emptiness at disjunctive positions of a predicate (locals with one definition looked through)"""
+    defs = {}
+    for t, v, n in bindings(fn):
+        if isinstance(t, ast.Name):
+            defs.setdefault(t.id, []).append(v)
+
+    def res(n):
+        if isinstance(n, ast.Name) and len(defs.get(n.id, ())) == 1:
+            return res(defs[n.id][0])
+        return n
+
+    out = set()
+    conj = False
+
+    def visit(e):
+        nonlocal conj
+        e = res(e)
+        if isinstance(e, ast.BoolOp) and isinstance(e.op, ast.Or):
+            for v in e.values:
+                visit(v)
+            return
+        if isinstance(e, ast.BoolOp):
+            conj = True
+            return
+        if isinstance(e, ast.Compare) and len(e.ops) == 1 and isinstance(e.ops[0], ast.Eq):
+            l, r = res(e.left), res(e.comparators[0])
+            for a, b in ((l, r), (r, l)):
+                if isinstance(b, ast.Constant) and b.value == 0 and not isinstance(b.value, bool):
+                    if isinstance(a, ast.Call) and call_name(a) == "len" and a.args:
+                        a = res(a.args[0])
+                    ch = attr_chain(a)
+                    if ch:
+                        out.add(".".join(ch))
+            return
+        if isinstance(e, ast.UnaryOp) and isinstance(e.op, ast.Not):
+            ch = attr_chain(res(e.operand))
+            if ch:
+                out.add(".".join(ch))
+
+    visit(expr)
+    return out, conj
+
+
 def degenerate(ctx):
-    for cname, empty in (("Rect", "()"), ("_RoundShape", "()"), ("_Polyshape", "[]")):
-        fn = ctx.fn("%s.segments" % cname, "R06.3")
-        g = [s for s in fn.body if isinstance(s, ast.If) and ast.unparse(s.test) == "self.is_degenerate()"]
-        ok = len(g) == 1 and isinstance(g[0].body[-1], ast.Return) and ast.unparse(g[0].body[-1].value) in ("()", "[]", "tuple()", "list()")
-        # before any segment constructor call
-        first_ctor = min([c.lineno for c in ast.walk(fn) if call_name(c) in ("Move", "Line", "Arc", "Close")] + [10 ** 9])
-        ok = ok and g[0].lineno < first_ctor
-        ctx.ob("R06.3", "%s.segments[degenerate -> empty]" % cname, ok, "", fn.lineno, "a shape with a zero dimension or no points produces no segments")
-    r = ctx.fn("Rect.is_degenerate", "R06.3")
-    s = ast.unparse(r).replace(" ", "")
-    ctx.ob("R06.3", "Rect.is_degenerate", "self.width==0" in s and "self.height==0" in s and " and " not in ast.unparse(r), "", r.lineno, "a rect is degenerate when either side is zero")
-    r = ctx.fn("_RoundShape.is_degenerate", "R06.3")
-    s = ast.unparse(r).replace(" ", "")
-    ctx.ob("R06.3", "_RoundShape.is_degenerate", "returnrx==0orry==0" in s, "", r.lineno, "a circle/ellipse is degenerate when either radius is zero")
-    r = ctx.fn("_Polyshape.is_degenerate", "R06.3")
-    s = ast.unparse(r).replace(" ", "")
-    ctx.ob("R06.3", "_Polyshape.is_degenerate", "returnlen(self.points)==0" in s, "", r.lineno, "a polyshape without points is degenerate")
+    for cname, kw in (("Rect", {}), ("_RoundShape", {"point_calls": ("point_at_t",)}), ("_Polyshape", {"point_lists": ("self.points",)})):
+        qual = "%s.segments" % cname
+        leaf = rect_leaf({}, False, degenerate=True) if cname == "Rect" else (lambda n: common_leaf(n, degenerate=True))
+        fn, ev, out = extract(ctx, qual, "R06.3", leaf, **kw)
+        ok = out[0] == "return" and out[1] is not None and ev.seq_value(out[1]) == []
+        ctx.ob("R06.3", "%s.segments[degenerate -> empty]" % cname, ok, ast.unparse(out[1])[:60] if out[1] is not None else out[0], fn.lineno,
+               "a shape with a zero dimension or no points produces no segments")
+        ctx.ob("R06.3", "%s.segments[consults is_degenerate]" % cname, any(isinstance(c, ast.Call) and isinstance(c.func, ast.Attribute) and c.func.attr == "is_degenerate" for c in ast.walk(fn)), "", fn.lineno,
+               "the decomposition asks the shape whether it renders at all")
+    for cname, want, msg in (("Rect", {"self.width", "self.height"}, "a rect is degenerate when either side is zero"),
+                             ("_RoundShape", {"self.implicit_rx", "self.implicit_ry"}, "a circle/ellipse is degenerate when either radius is zero"),
+                             ("_Polyshape", {"self.points"}, "a polyshape without points is degenerate")):
+        r = ctx.fn("%s.is_degenerate" % cname, "R06.3")
+        rets = [x for x in ast.walk(r) if isinstance(x, ast.Return)]
+        ctx.need(len(rets) == 1 and rets[0].value is not None, "R06.3", "%s.is_degenerate: single return expected" % cname)
+        got, conj = zero_tests(ctx, r, rets[0].value)
+        alt = {"self.rx", "self.ry"} if cname == "_RoundShape" else want
+        ctx.ob("R06.3", "%s.is_degenerate" % cname, (want <= got or alt <= got) and not conj, "zero tests (disjunctive): %s" % sorted(got), r.lineno, msg)
 
 
 def save_restore(ctx):
@@ -248,28 +384,63 @@ def save_restore(ctx):
 
 def plumbing(ctx):
     d = ctx.fn("Shape.d", "R06.6")
-    s = ast.unparse(d).replace(" ", "")
-    ctx.ob("R06.6", "Shape.d", "returnPath(self.segments(transformed=transformed)).d(relative=relative)" in s, "", d.lineno, "shape.d() is the path data of its decomposition")
+    tpar = [a.arg for a in d.args.args]
+    segcalls = [c for c in ast.walk(d) if isinstance(c, ast.Call) and attr_chain(c.func) == ["self", "segments"]]
+    passes_t = bool(segcalls) and all(any(isinstance(v, ast.Name) and v.id == "transformed" for v in list(c.args) + [k.value for k in c.keywords]) for c in segcalls)
+    t1 = Taint(d, lambda n: any(n is c for c in segcalls), through_containers=False)
+    paths = [c for c in ast.walk(d) if isinstance(c, ast.Call) and call_name(c) == "Path" and c.args and t1.derived(c.args[0])]
+    t2 = Taint(d, lambda n: any(n is c for c in paths), through_containers=False)
+    dcalls = [c for c in ast.walk(d) if isinstance(c, ast.Call) and isinstance(c.func, ast.Attribute) and c.func.attr == "d" and t2.derived(c.func.value)
+              and any(isinstance(v, ast.Name) and v.id == "relative" for v in list(c.args) + [k.value for k in c.keywords])]
+    t3 = Taint(d, lambda n: any(n is c for c in dcalls), through_containers=False)
+    rets = [r for r in ast.walk(d) if isinstance(r, ast.Return) and r.value is not None]
+    ok = "transformed" in tpar and passes_t and bool(dcalls) and bool(rets) and all(t3.derived(r.value) for r in rets)
+    ctx.ob("R06.6", "Shape.d", ok, "", d.lineno, "shape.d() is the path data of its decomposition")
     pi = ctx.fn("Path.__init__", "R06.6")
-    s = ast.unparse(pi).replace(" ", "")
-    ctx.ob("R06.6", "Path(shape)", "elifisinstance(s,Shape):" in s and "s.segments(transformed=False)" in s and "Shape.__init__(self,*args,**kwargs)" in s, "", pi.lineno,
-           "Path(shape) takes the untransformed decomposition and copies transform and paint through the shape copy constructor")
+    ok = False
+    for br in ast.walk(pi):
+        if isinstance(br, ast.If) and isinstance(br.test, ast.Call) and call_name(br.test) == "isinstance" and len(br.test.args) == 2 \
+                and isinstance(br.test.args[0], ast.Name) and isinstance(br.test.args[1], ast.Name) and br.test.args[1].id == "Shape":
+            subj = br.test.args[0].id
+            sc = [c for s_ in br.body for c in ast.walk(s_) if isinstance(c, ast.Call) and isinstance(c.func, ast.Attribute) and c.func.attr == "segments"
+                  and isinstance(c.func.value, ast.Name) and c.func.value.id == subj]
+            untransformed = bool(sc) and all(any(const_value(ctx.m, v, "?") is False for v in list(c.args) + [k.value for k in c.keywords]) for c in sc)
+            init = [c for c in ast.walk(pi) if isinstance(c, ast.Call) and attr_chain(c.func) == ["Shape", "__init__"] and any(isinstance(a, ast.Starred) for a in c.args)]
+            ok = ok or (untransformed and bool(init))
+    ctx.ob("R06.6", "Path(shape)", ok, "", pi.lineno, "Path(shape) takes the untransformed decomposition and copies transform and paint through the shape copy constructor")
     eq = ctx.fn("Shape.__eq__", "R06.6")
-    s = ast.unparse(eq).replace(" ", "")
-    ctx.ob("R06.6", "Shape.__eq__", "first=Path(first)" in s and "second=Path(second)" in s and "returnfirst==second" in s and "self.fill!=other.fill" in s, "", eq.lineno,
-           "shapes compare equal through their path forms (and paint)")
+    other = eq.args.args[1].arg
+    tp = {}
+    for who in ("self", other):
+        tp[who] = Taint(eq, lambda n, who=who: isinstance(n, ast.Call) and call_name(n) == "Path" and n.args and who in names(n.args[0]), seeds=(), through_containers=False)
+        # the operand itself may flow through a local before Path() is applied
+        pre = Taint(eq, lambda n, who=who: isinstance(n, ast.Name) and n.id == who, through_containers=False)
+        tp[who] = Taint(eq, lambda n, pre=pre: isinstance(n, ast.Call) and call_name(n) == "Path" and n.args and pre.derived(n.args[0]), through_containers=False)
+    cmp_ = [r.value for r in ast.walk(eq) if isinstance(r, ast.Return) and isinstance(r.value, ast.Compare) and len(r.value.ops) == 1 and isinstance(r.value.ops[0], ast.Eq)]
+    okc = any((tp["self"].derived(c.left) and tp[other].derived(c.comparators[0])) or (tp[other].derived(c.left) and tp["self"].derived(c.comparators[0])) for c in cmp_)
+    paint = any(isinstance(c, ast.Compare) and {".".join(attr_chain(x) or []) for x in [c.left] + c.comparators} == {"self.fill", other + ".fill"} for c in ast.walk(eq))
+    ctx.ob("R06.6", "Shape.__eq__", okc and paint, "path comparison %s, paint comparison %s" % (okc, paint), eq.lineno, "shapes compare equal through their path forms (and paint)")
     pe = ctx.fn("Path.__eq__", "R06.6")
-    s = ast.unparse(pe).replace(" ", "")
-    ctx.ob("R06.6", "Path.__eq__", "p=abs(self)" in s and "q=abs(other)" in s and "zip(q._segments,p._segments)" in s, "", pe.lineno, "paths compare in transformed (reified) form, segment by segment")
+    other = pe.args.args[1].arg
+    ta = Taint(pe, lambda n: isinstance(n, ast.Call) and call_name(n) == "abs" and n.args and isinstance(n.args[0], ast.Name) and n.args[0].id == "self", through_containers=False)
+    tb = Taint(pe, lambda n: isinstance(n, ast.Call) and call_name(n) == "abs" and n.args and isinstance(n.args[0], ast.Name) and n.args[0].id == other, through_containers=False)
+    zips = [c for c in ast.walk(pe) if isinstance(c, ast.Call) and call_name(c) == "zip" and len(c.args) == 2]
+    ok = any((ta.derived(z.args[0]) and tb.derived(z.args[1])) or (tb.derived(z.args[0]) and ta.derived(z.args[1])) for z in zips)
+    direct = [c for c in ast.walk(pe) if isinstance(c, ast.Compare) and len(c.ops) == 1 and isinstance(c.ops[0], (ast.Eq, ast.NotEq))
+              and ((ta.derived(c.left) and tb.derived(c.comparators[0])) or (tb.derived(c.left) and ta.derived(c.comparators[0])))]
+    ctx.ob("R06.6", "Path.__eq__", ok or bool(direct), "", pe.lineno, "paths compare in transformed (reified) form, segment by segment")
     from .c02 import transformed_decomposition
     # R06.5 shares the obligations of C02.5 under this property's id
     for cname in ("Rect", "_RoundShape", "SimpleLine", "_Polyshape"):
         fn = ctx.fn("%s.segments" % cname, "R06.5")
-        src = ast.unparse(fn)
         scalar = sorted({n.attr for n in ast.walk(fn) if isinstance(n, ast.Attribute) and isinstance(n.value, ast.Name) and n.value.id == "self"
                          and (n.attr.startswith("implicit_") or n.attr == "rotation")})
-        mult = any(isinstance(n, ast.BinOp) and isinstance(n.op, ast.Mult) and ast.unparse(n.right).endswith(".transform") for n in ast.walk(fn)) \
-            or any(isinstance(n, ast.AugAssign) and isinstance(n.op, ast.Mult) and ast.unparse(n.value).endswith(".transform") for n in ast.walk(fn)) \
-            or "transform.point_in_matrix_space" in src
+        def is_tr(n):
+            ch = attr_chain(n)
+            return bool(ch) and ch[-1] == "transform"
+
+        mult = any(isinstance(n, ast.BinOp) and isinstance(n.op, ast.Mult) and is_tr(n.right) for n in ast.walk(fn)) \
+            or any(isinstance(n, ast.AugAssign) and isinstance(n.op, ast.Mult) and is_tr(n.value) for n in ast.walk(fn)) \
+            or any(isinstance(n, ast.Attribute) and n.attr == "point_in_matrix_space" and is_tr(n.value) for n in ast.walk(fn))
         ctx.ob("R06.5", "%s.segments" % cname, mult and not scalar, "scalar quantities derived from the matrix: %s; applies matrix: %s" % (scalar, mult), fn.lineno,
                "a transformed decomposition rebuilt from radii/rotation read off the matrix is exact only for similarity-like matrices")
